@@ -64,8 +64,11 @@ L = "hy.I.c16-simlog.log"
 
 
 def gen_form(rng, k, in_fn):
-    kind = rng.choice(["ewc", "eac", "domac", "domac_rt", "plain", "eac_def"] if not in_fn else ["ewc", "eac", "domac", "domac_rt", "plain"])
-    return {"kind": kind, "n": rng.choice([1, 1, 2]), "bind": rng.random() < 0.6}
+    kind = rng.choice((["eac_def"] if not in_fn else []) + ["ewc", "eac", "domac", "domac_rt", "plain", "domac_val", "domac_staged"])
+    return {"kind": kind, "n": rng.choice([1, 1, 2]), "bind": rng.random() < 0.6,
+            "spell": rng.choice(["-", "-", "-", "_", "R"]),     # eval-and-compile / eval_and_compile / hy.R.hy/core/result-macros.…
+            "val": rng.choice(["0", '""', "False", "[]", "None", "0.0", "#()", '"s"', "[1 2]"]),
+            "inner": rng.choice(["ewc", "eac", "domac"])}
 
 
 def generate(rng, tier):
@@ -139,31 +142,62 @@ class Model:
         k = f["kind"]
         tags = [self.tag() for _ in range(f["n"])]
         logs = " ".join(f'({L} "{t}")' for t in tags)
+        sp = f.get("spell", "-")
+
+        def name(n):
+            if sp == "_":
+                return n.replace("-", "_")
+            if sp == "R":
+                return "hy.R.hy/core/result-macros." + n
+            return n
+
+        EWC, EAC, DOMAC = name("eval-when-compile"), name("eval-and-compile"), name("do-mac")
         if k == "ewc":
             self.compile_log += tags
-            return f"(eval-when-compile {logs})", None
+            return f"({EWC} {logs})", None
         if k == "eac":
             self.compile_log += tags
             run_log += tags
             v = 1000 + self.t
-            return f"(eval-and-compile {logs} {v})", v
+            return f"({EAC} {logs} {v})", v
+        if k == "domac_val":
+            # the value of the body is compiled as code, whatever it is -- also when it is falsy
+            self.compile_log += tags
+            lit = f.get("val", "0")
+            pyval = {"0": 0, '""': "", "False": False, "[]": [], "None": None, "0.0": 0.0, "#()": (), '"s"': "s", "[1 2]": [1, 2]}[lit]
+            return f"({DOMAC} {logs} {lit})", pyval
+        if k == "domac_staged":
+            # do-mac producing a staging form: that form is then compiled (hence staged) like any other code
+            self.compile_log += tags
+            it = self.tag()
+            inner = f.get("inner", "ewc")
+            v = 4000 + self.t
+            if inner == "ewc":
+                self.compile_log.append(it)
+                return f"({DOMAC} {logs} '(eval-when-compile ({L} \"{it}\")))", None
+            if inner == "eac":
+                self.compile_log.append(it)
+                run_log.append(it)
+                return f"({DOMAC} {logs} '(eval-and-compile ({L} \"{it}\") {v}))", v
+            self.compile_log.append(it)
+            return f"({DOMAC} {logs} '(do-mac ({L} \"{it}\") {v}))", v
         if k == "eac_def":
             # defines a helper at both stages; a later run-time form uses it
             self.compile_log += tags
             run_log += tags
-            name = "helper%d" % self.t
-            self.values[name] = self.t
-            return f"(eval-and-compile {logs} (setv {name} {self.t}))", None
+            hname = "helper%d" % self.t
+            self.values[hname] = self.t
+            return f"({EAC} {logs} (setv {hname} {self.t}))", None
         if k == "domac":
             self.compile_log += tags
             v = 2000 + self.t
-            return f"(do-mac {logs} '(+ {v} 0))", v
+            return f"({DOMAC} {logs} '(+ {v} 0))", v
         if k == "domac_rt":
             self.compile_log += tags
             rt = self.tag()
             run_log.append(rt)
             v = 3000 + self.t
-            return f"(do-mac {logs} '(do ({L} \"{rt}\") {v}))", v
+            return f"({DOMAC} {logs} '(do ({L} \"{rt}\") {v}))", v
         t = tags[0]
         run_log.append(t)
         return f'(do ({L} "{t}") "{t}")', t
@@ -246,7 +280,7 @@ def execute(desc):
                     viols.append({"clause": "run_time_effects", "sig": path,
                                   "detail": {"op": oi, "path": path, "got": got_r, "expected": want_r, "text": model.text()[:1200]}})
                 gotv = {k: getattr(mod, k, "<missing>") for k in model.values}
-                if gotv != model.values:
+                if {k: repr(v) for k, v in gotv.items()} != {k: repr(v) for k, v in model.values.items()}:
                     viols.append({"clause": "values", "sig": path,
                                   "detail": {"op": oi, "path": path, "got": repr(gotv)[:300], "expected": repr(model.values)[:300],
                                              "text": model.text()[:1200]}})
@@ -265,7 +299,7 @@ def execute(desc):
                     v = "<%s: %s>" % (type(e).__name__, str(e)[:80])
                 got = [[ph, t] for ph, t in log.events]
                 want = [["run", t] for t in fn["run_log"]]
-                if got != want or v != fn["value"]:
+                if got != want or repr(v) != repr(fn["value"]):
                     viols.append({"clause": "function_call", "sig": "effects" if got != want else "value",
                                   "detail": {"op": oi, "fn": fn["name"], "got": got, "expected": want, "value": repr(v)[:100],
                                              "expected_value": repr(fn["value"]), "text": loaded_model.text()[:1200]}})
